@@ -196,8 +196,14 @@ impl<'a, 'tcx> Ex<'a, 'tcx> {
         let cx = self.cx;
         let e = &self.thir.exprs[id];
         // collapse scopes
-        if let ExprKind::Scope { value, .. } = &e.kind {
-            return self.expr(*value);
+        if let ExprKind::Scope { value, region_scope, .. } = &e.kind {
+            let inner = self.expr(*value);
+            // a loop keeps the id of its scope: `break` / `continue` name the loop they leave by that id
+            if let (ExprKind::Loop { .. }, J::Obj(mut fields)) = (&self.thir.exprs[*value].kind, inner.clone()) {
+                fields.push(("scope".to_string(), J::Int(region_scope.local_id.as_u32() as i128)));
+                return J::Obj(fields);
+            }
+            return inner;
         }
         let base = J::obj().puts("ty", cx.ty(e.ty)).put("span", cx.span(e.span));
         match &e.kind {
@@ -318,14 +324,14 @@ impl<'a, 'tcx> Ex<'a, 'tcx> {
                 .put("e", self.expr(*arg))
                 .done(),
             ExprKind::RawBorrow { arg, .. } => base.puts("k", "rawborrow").put("e", self.expr(*arg)).done(),
-            ExprKind::Break { value, .. } => {
-                let mut o = base.puts("k", "break");
+            ExprKind::Break { value, label } => {
+                let mut o = base.puts("k", "break").puti("label", label.local_id.as_u32() as i128);
                 if let Some(v) = value {
                     o = o.put("e", self.expr(*v));
                 }
                 o.done()
             }
-            ExprKind::Continue { .. } => base.puts("k", "continue").done(),
+            ExprKind::Continue { label } => base.puts("k", "continue").puti("label", label.local_id.as_u32() as i128).done(),
             ExprKind::Return { value } => {
                 let mut o = base.puts("k", "return");
                 if let Some(v) = value {
